@@ -790,7 +790,19 @@ class Translator:
         def cp(m):
             self.report.hit('R10.array_copy')
             return 'VERIF_COPY(%s, %s, %s)' % (m.group(3), m.group(1), m.group(2).strip())
-        return re.sub(r'(?<![\w.>])copy\s*\(\s*(\w+)\s*,\s*\1\s*\+\s*([^,()]+?)\s*,\s*(\w+)\s*\)', cp, body)
+        body = re.sub(r'(?<![\w.>])copy\s*\(\s*(\w+)\s*,\s*\1\s*\+\s*([^,()]+?)\s*,\s*(\w+)\s*\)', cp, body)
+        # std::fill(first, last, value) on plain arrays
+        while True:
+            m = re.search(r'(?<![\w.>])fill\s*\(', body)
+            if not m:
+                break
+            pc = match_close(body, m.end() - 1)
+            args = split_top(body[m.end():pc])
+            if len(args) != 3:
+                raise ExtractError('std::fill with %d arguments' % len(args))
+            body = body[:m.start()] + 'VERIF_FILL(%s, %s, %s)' % tuple(' '.join(a.split()) for a in args) + body[pc + 1:]
+            self.report.hit('R10.array_fill')
+        return body
 
     # ---- R13/R14 strings
     def rule_strings(self, body, str_names):
